@@ -97,6 +97,8 @@ class EvalMixin(CallMixin):
             target = q
         r = repo.lookup(target)
         if r is None:
+            if m is not None and bare is not None and bare in m.module_imports:
+                return ModRef(target)
             return Sym(repo.canon(target)) if "." in target else Sym(target)
         kind, obj = r
         if kind == "module":
@@ -592,11 +594,20 @@ class EvalMixin(CallMixin):
     def ex_Yield(self, node, fr):
         v = self.eval(node.value, fr) if node.value is not None else None
         self.effect("yield", node, fr, value=v)
+        f = fr
+        while f is not None and getattr(f, "is_comp", False):
+            f = f.parent
+        if f is not None and hasattr(f, "gen_acc"):
+            f.gen_acc.append(v)
         return None
 
     def ex_YieldFrom(self, node, fr):
         v = self.eval(node.value, fr)
         self.effect("yield", node, fr, value=v, frm=True)
+        if hasattr(fr, "gen_acc"):
+            items = self.concrete_iter(v)
+            if items is not None:
+                fr.gen_acc.extend(items)
         return None
 
     def ex_Await(self, node, fr):
